@@ -1,8 +1,18 @@
 """Registry entry, manifest texts for C03."""
 
 ENTRY = {'parts': [{'scenario': 'scenarios.s_pool', 'chunk': 6}],
-         'quick': {'runs': 2500, 'budget': 50}, 'thorough': {'runs': 150000, 'budget': 1200}}
+         'quick': {'runs': 2500, 'budget': 55}, 'thorough': {'runs': 150000, 'budget': 1200}}
 
-TEXT = {'level': 'TODO', 'ref': 'DESIGN.md 5 (C03), 4 (S-POOL)', 'note': 'TODO'}
-
-ENABLED = False
+TEXT = {'level': 'Seeded search over task sequences x quotas x message consumption orders with a wiretap on every '
+          "worker's result pipe (messages decoded after the fact): per worker the stream is (ACK READY)* "
+          'with the real pid and an acceptance time inside [worker start, message written], the program ran '
+          'between the two messages, no second accept before the result; parent side: accept callback before '
+          "result callback with the worker's arguments, owner recorded; quota: <= N jobs per worker, recycle "
+          'status only at the quota; handshake clause with a Celery-like synack subclass: a job cancelled '
+          'before its ACK is consumed is NACKed and never executes.',
+ 'note': 'Trusted: the simulated kernel (simos) models Linux semaphores, pipes, poll, process table, signals '
+         'and wait statuses faithfully (stub conformance: selftest/conformance.py); BaseProcess._bootstrap '
+         'is replaced by a replica of its exit-code mapping (checked by C19); start method is spawn-like '
+         '(pickled copy). Workers die uncatchably only inside task code or between jobs; pipes do not lose '
+         'bytes. Sampling, not proof.',
+ 'ref': 'DESIGN.md 5 (C03), 3, 4 (S-POOL)'}
